@@ -10,7 +10,7 @@ Definition search_of (inp : input) : option (bool * sst) :=
 
 Lemma solve_cases inp r :
   solve inp = Done r ->
-  (degenerate inp = true /\ r = degenerate_result (find_all inp))
+  (degenerate inp = true /\ r = degenerate_result (find_all inp) (max_solutions inp))
   \/ (degenerate inp = false
       /\ rows_in_range (length (col_names inp)) (mk_rows (matrix inp)) = true
       /\ exists b st, search_of inp = Some (b, st)
@@ -41,6 +41,16 @@ Lemma cover_of_nothing M sec S : exact_cover M [] sec S -> S = [].
 Proof.
   intros [_ [H _]]. destruct S as [|r t]; [reflexivity|].
   destruct (H r (or_introl eq_refl)) as [_ [c [[] _]]].
+Qed.
+
+Lemma degenerate_all_covers inp :
+  valid_input inp = true -> degenerate inp = true -> lists_all_covers inp [[]].
+Proof.
+  intros Hv Hd. destruct (degenerate_no_cols inp Hv Hd) as [Ep Es]. unfold lists_all_covers. rewrite Ep, Es.
+  split; [|split].
+  - intros S [E|[]]. subst S. apply empty_cover.
+  - intros S HS. apply cover_of_nothing in HS. subst S. exists []. split; [left; reflexivity | intros x; tauto].
+  - simpl. intros i j Hij. lia.
 Qed.
 
 (* ------------------------------------------------------------------ finish *)
@@ -155,11 +165,7 @@ Theorem solve_complete inp r :
 Proof.
   intros Hv H Hfa Hst. apply solve_cases in H. destruct H as [[Hd Er]|[Hd [Hr [b [st [Hs Er]]]]]]; subst r.
   - rewrite Hfa. split; [exists [[]]; split; reflexivity|].
-    destruct (degenerate_no_cols inp Hv Hd) as [Ep Es]. unfold lists_all_covers. rewrite Ep, Es. simpl.
-    split; [|split].
-    + intros S [E|[]]. subst S. apply empty_cover.
-    + intros S HS. apply cover_of_nothing in HS. subst S. exists []. split; [left; reflexivity | intros x; tauto].
-    + simpl. intros i j Hij. lia.
+    apply (degenerate_all_covers inp Hv Hd).
   - rewrite Hfa in *. apply finish_optimal_find_all in Hst. destruct Hst as [Hmi [Hhit [Esol [Eobj Hne]]]].
     split; [exists (rev (sols st)); split; [exact Esol | rewrite rev_length; exact Eobj]|].
     unfold selections. rewrite Esol.
@@ -175,7 +181,7 @@ Theorem solve_infeasible_iff inp r :
 Proof.
   intros Hv H Hst. apply solve_cases in H. destruct H as [[Hd Er]|[Hd [Hr [b [st [Hs Er]]]]]]; subst r.
   - destruct (degenerate_no_cols inp Hv Hd) as [Ep Es]. split.
-    + unfold degenerate_result. destruct (find_all inp); simpl; discriminate.
+    + unfold degenerate_result. destruct (find_all inp); simpl; [destruct (ms_hit (max_solutions inp) 1)|]; discriminate.
     + intros Hno. exfalso. apply Hno. exists []. unfold is_cover. rewrite Ep, Es. apply empty_cover.
   - apply finish_not_max_iter in Hst. destruct Hst as [Hmi Hiff]. rewrite Hiff. split.
     + intros Hnil [S HS]. destruct b.
@@ -241,8 +247,9 @@ Theorem solve_status inp r : solve inp = Done r -> status_facts inp r.
 Proof.
   intros H. apply solve_cases in H. destruct H as [[Hd Er]|[Hd [Hr [b [st [Hs Er]]]]]]; subst r.
   - unfold status_facts, degenerate_result, selections. destruct (find_all inp); simpl.
-    + repeat split; try discriminate; try (intros [? ?]; lia); try tauto.
-      intros _. right. exists [[]]. repeat split. discriminate.
+    + destruct (ms_hit (max_solutions inp) 1) eqn:Eh; simpl;
+        repeat split; try discriminate; try (intros [? ?]; lia); try tauto; try exact Eh;
+        intros _; right; exists [[]]; repeat split; discriminate.
     + repeat split; try discriminate; try (intros [? ?]; lia); try tauto.
       intros _. right. exists []. split; reflexivity.
   - assert (Hpos : 1 <= iters st).
